@@ -16,6 +16,7 @@ import concurrent.futures
 import itertools
 import json
 import os
+import re
 
 from .. import common
 from ..common import canon
@@ -27,7 +28,11 @@ TRUSTED = ['harness/props/c18.py, harness/impl_c18.py (generators, pipeline rend
            'harness/extract_c18.py (ast -> Generated/CliMain.lean, Generated/CliOptions.lean)',
            'CPython argparse / int() / str.partition / str.join / json.loads / pathlib.Path / sys.exit and the '
            "interpreter's handling of an unhandled SystemExit / BaseException / signal delivery",
-           "Lean's Lean.Json.parse as stand-in for json.loads in the driver (integers only, compared up to key order)"]
+           "Lean's Lean.Json.parse as stand-in for json.loads in the driver (integers only, compared up to key order; not "
+           "asked for NaN/Infinity literals, surrogate escapes, lone surrogates: there only the monitor against the "
+           "stdlib strict decoder judges)",
+           'harness/translate.py: json.loads is an opaque function of one str (parameter `loads` of the translated json '
+           'parser); any other call shape - a keyword such as strict=False, a second positional - is refused']
 ASSUMPTIONS = [
     'argv domain: every list of strings EXCEPT: a string that starts with "-", matches no option/abbreviation and '
     'contains a non-ASCII character (argparse\'s negative-number matcher uses \\d = any Unicode digit); an explicit '
@@ -372,25 +377,23 @@ def sort_keys(w):
     return w
 
 
-def gen_json_args(rng):
-    def val(depth):
-        r = rng.random()
-        if depth > 2 or r < 0.45:
-            return rng.choice([0, 1, -7, 123456789012345678901234567890, True, False, None, 'x', 'a b', '', 'ünï ✓',
-                               'q"uo\\te', 'k=v', ' sp ', 'e.g. 1e5'])
-        if r < 0.7:
-            return [val(depth + 1) for _ in range(rng.randint(0, 3))]
-        return {rng.choice(['a', 'b', 'key c', 'ü', '', 'k=v']) + str(i): val(depth + 1) for i in range(rng.randint(0, 3))}
-    kind = rng.random()
-    if kind < 0.7:
-        top = {rng.choice(['a', 'b', 'key c', 'ü', 'k=v']) + str(i): val(0) for i in range(rng.randint(0, 4))}
-    elif kind < 0.85:
-        top = rng.choice([[1, 2], 'str', 5, None, True, [], [{}]])
-    else:
-        txt = rng.choice(['{bad', '{"a": }', "{'a': 1}", '{"a": 1,}', '', '{"a": 1} x', '{"a" 1}', 'nul'])
-        return txt.split(' ') if txt else ['']
-    txt = json.dumps(top, ensure_ascii=rng.random() < 0.3, separators=rng.choice([(', ', ': '), (',', ':')]))
-    # cut at spaces: `' '.join` restores the text exactly
+# What one argument can hold when a shell / an exec*() caller hands it over: raw control characters (a multi-line
+# quoted value: LF, TAB, CR, ESC, U+0001 …), DEL and C1, non-ASCII of every plane, combining marks, unicode
+# spaces and line separators, a BOM, quotes and backslashes of both kinds, text that looks like an escape, and
+# NUL-free binary-ish text (bytes that are not UTF-8 arrive in sys.argv as lone surrogates U+DC80..U+DCFF).
+HOSTILE_WORDS = ['line1\nline2', 'tab\there', 'k=\x01', '\x01', '\x1f=\x7f', 'cr\r\nlf', '\x0b\x0c', 'k=\x1b[31mred', 'k\n=v\n',
+                 '\x80\x9f', '\xfc=✓', '\U0001f600=\U0001f389', 'é=́', 'nb\xa0sp', ' = ', '﻿bom',
+                 '　', '"', "'", '\\', 'k="v"', "k='v'", 'a\\nb', '\\u0041=\\x41', '{"a": "b"}', '"k"="v"', 'k=\\"',
+                 'k=\udc80\udcff', '\udcfe', '\x01\x02\x7f\udc80=\udcff\x1e', 'İ=\xdf', '٣=१']
+PARSER_WORDS = CTX_WORDS + HOSTILE_WORDS
+
+
+def has_surrogate(args):
+    return any(0xD800 <= ord(ch) <= 0xDFFF for a in args or [] for ch in a)
+
+
+def cut_at_spaces(rng, txt):
+    """`' '.join` restores the text exactly."""
     parts = txt.split(' ')
     out, cur = [], parts[0]
     for p in parts[1:]:
@@ -400,6 +403,84 @@ def gen_json_args(rng):
         else:
             cur += ' ' + p
     return out + [cur]
+
+
+def gen_json_value(rng):
+    def val(depth):
+        r = rng.random()
+        if depth > 2 or r < 0.45:
+            return rng.choice([0, 1, -7, 123456789012345678901234567890, True, False, None, 'x', 'a b', '', 'ünï ✓',
+                               'q"uo\\te', 'k=v', ' sp ', 'e.g. 1e5', 'l1\nl2', 'a\tb', '\x01\x1f', '😀', '\x7f\x80', "it's", ' '])
+        if r < 0.7:
+            return [val(depth + 1) for _ in range(rng.randint(0, 3))]
+        return {rng.choice(['a', 'b', 'key c', 'ü', '', 'k=v', 'l\nf', '\t', '"']) + str(i): val(depth + 1) for i in range(rng.randint(0, 3))}
+    return {rng.choice(['a', 'b', 'key c', 'ü', 'k=v', 'l\nf', '\x01', "'"]) + str(i): val(0) for i in range(rng.randint(0, 4))}
+
+
+def gen_json_args(rng):
+    kind = rng.random()
+    if kind < 0.7:
+        top = gen_json_value(rng)
+    elif kind < 0.85:
+        top = rng.choice([[1, 2], 'str', 5, None, True, [], [{}]])
+    else:
+        txt = rng.choice(['{bad', '{"a": }', "{'a': 1}", '{"a": 1,}', '', '{"a": 1} x', '{"a" 1}', 'nul'])
+        return txt.split(' ') if txt else ['']
+    # json.dumps ESCAPES every control character: these are the well-formed documents
+    txt = json.dumps(top, ensure_ascii=rng.random() < 0.3, separators=rng.choice([(', ', ': '), (',', ':')]))
+    return cut_at_spaces(rng, txt)
+
+
+# one character / escape put INSIDE a string literal of a well-formed document …
+IN_STRING_RAW = ['\n', '\t', '\r', '\x01', '\x08', '\x0b', '\x0c', '\x1b', '\x1f',          # strict json: refused
+                 '\x7f', '\x80', '\xa0', ' ', '\xfc', '✓', '\U0001f600', "'", '/', ' ']       # accepted as they are
+IN_STRING_ESC = ['\\n', '\\t', '\\r', '\\b', '\\f', '\\"', '\\\\', '\\/', '\\u0001', '\\u000a', '\\u00fc', '\\ud83d\\ude00',  # fine
+                 '\\x01', '\\a', '\\u12', '\\u', '\\U0001f600', "\\'", '\\0', '\\\n', '\\ud800', '\\udc00\\ud800']   # mostly refused
+# … or BETWEEN two tokens (json whitespace is space, TAB, LF, CR and nothing else)
+BETWEEN_TOKENS = ['\t', '\n', '\r', '\r\n', ' \t ', '\x0b', '\x0c', '\x01', '\x1f', '\xa0', ' ', '﻿', '　', '\x7f']
+# … or standing where a value stands (Python's decoder takes NaN / Infinity / -Infinity; nothing else here is json)
+ODD_LITERALS = ['NaN', 'Infinity', '-Infinity', 'nan', '-NaN', '+Infinity', 'TRUE', 'None', 'undefined', '01', '-01', '+1', '1.', '.5',
+                '1e', '0x10', '1_000', '-', '--1', '1.5', '-0', '-0.0', '1E2', '1e-2', '00', "'s'", '"a" "b"', '1 2', '']
+JSON_SKELETONS = ['{"k": %s}', '{"k": [%s]}', '[%s]', '%s', '{%s: 1}', '{"a": 1, "k": %s, "a": 2}']
+_JSON_STR = re.compile(r'"(?:[^"\\]|\\.)*"')
+
+
+def gen_json_hostile(rng):
+    """-> (variant, args): a well-formed document with ONE thing a strict decoder must refuse / must take in it."""
+    v = rng.choice(['in-string-raw', 'in-string-raw', 'in-string-esc', 'between', 'literal', 'duplicate', 'whole-arg'])
+    if v == 'literal':
+        return v, cut_at_spaces(rng, rng.choice(JSON_SKELETONS) % rng.choice(ODD_LITERALS))
+    if v == 'duplicate':
+        k = rng.choice(['"a"', '"\\u0061"', '"a b"', '""'])
+        return v, cut_at_spaces(rng, '{%s: 1, "b": {%s: [1], %s: null}, %s: "last"}' % (k, k, k, rng.choice([k, '"a"'])))
+    if v == 'whole-arg':
+        # the control character is a whole argument of its own / the end of one
+        ch = rng.choice(['\n', '\t', '\x01', '\r', '\x0c'])
+        return v, rng.choice([['{"a":', ch, '1}'], ['{"a": "x', ch, 'y"}'], ['{"a": "x' + ch, '"}'], [ch, '{}', ch], ['{"a', ch + '": 1}']])
+    top = gen_json_value(rng)
+    top['s' + rng.choice(['', ' ', 'ü'])] = rng.choice(['v', '', 'a b', 'ü'])
+    txt = json.dumps(top, ensure_ascii=rng.random() < 0.3, separators=rng.choice([(', ', ': '), (',', ':')]))
+    if v == 'between':
+        spots = [m.end() for m in re.finditer(r'[{\[,:]', _JSON_STR.sub(lambda m: '_' * len(m.group()), txt))] + [0, len(txt)]
+        i = rng.choice(spots)
+        return v, cut_at_spaces(rng, txt[:i] + rng.choice(BETWEEN_TOKENS) + txt[i:])
+    m = rng.choice(list(_JSON_STR.finditer(txt)))
+    i = rng.choice([m.start() + 1, m.end() - 1])          # right after the opening / before the closing quote
+    ins = rng.choice(IN_STRING_RAW if v == 'in-string-raw' else IN_STRING_ESC)
+    return v, cut_at_spaces(rng, txt[:i] + ins + txt[i:])
+
+
+def json_standin_ok(txt):
+    """Lean's Json.parse stands in for json.loads in the driver; where the two are KNOWN to differ the model is not
+    asked (the monitor below still judges the code against the stdlib strict decoder): NaN/Infinity literals,
+    surrogate escapes (python keeps a lone surrogate), floats (outside the model's values)."""
+    return not (re.search(r'NaN|Infinity|\\u[dD][89a-fA-F]', txt) or has_surrogate([txt]))
+
+
+JSON_DIRECTED = [['{"msg": "line1\nline2"}'], ['{"msg":', '"a\tb"}'], ['{"k\x01": 1}'], ['{"msg": "line1\\nline2"}'], ['{"a":\n1,\t"b":\r2}'],
+                 ['{"a":\x0b1}'], ['{"a": "\x7f\x80"}'], ['{"a": NaN}'], ['{"a": -Infinity}'], ['{"a": "\\ud800"}'], ['﻿{}'],
+                 ['{"a": 1, "a": 2}'], ['{"\xfc": "\U0001f600"}'], ['{"a": "\\x01"}'], ['{"a": "q\\"uote"}'], ["{'a': 1}"], ['{"a": 01}'],
+                 ['{"a": "\x1f"}'], ['{"a": "x', 'y"}'], ['{"a": "x\n', '\ny"}'], ['{}', '\n'], ['\n{"a": "b"}\n']]
 
 
 def check_parsers(env, res, n):
@@ -412,33 +493,66 @@ def check_parsers(env, res, n):
     directed = [['a=1', 'b=2'], ['a=1', 'a=2'], ['a=1', 'b=x', 'a=3', 'b='], ['k=v=w'], ['=v'], ['k='], ['bare'],
                 ['a', 'b', 'a'], ['one', 'two  spaces', '', 'x'], ['', ''], [' '], ['argList=1', 'x'], ['x', 'argList=1'],
                 ['ünï=ø', 'ünï=å'], ['{"a":', '1}'], ['{"a":1}'], ['a=b', 'a', 'a=c'], ['=', '==', '=']]
+    # every hostile word alone, as first and as last of several, for EVERY parser
+    directed += [[w] for w in HOSTILE_WORDS] + [[w, 'k=v'] for w in HOSTILE_WORDS[::3]] + [['a', w] for w in HOSTILE_WORDS[1::3]]
     for p in PARSERS:
         for a in directed:
             cases.append((p, a))
+    jp = [p for p in PARSERS if p.endswith('json')][0]
+    variant = {}
+    for a in JSON_DIRECTED:
+        variant[len(cases)] = 'directed'
+        cases.append((jp, a))
     for _ in range(n):
         p = rng.choice(PARSERS)
-        if p.endswith('json') and rng.random() < 0.85:
-            cases.append((p, gen_json_args(rng)))
+        if p.endswith('json') and rng.random() < 0.9:
+            if rng.random() < 0.5:
+                variant[len(cases)], a = gen_json_hostile(rng)
+                cases.append((p, a))
+            else:
+                cases.append((p, gen_json_args(rng)))
         else:
-            cases.append((p, [rng.choice(CTX_WORDS) for _ in range(rng.choice([1, 2, 3, 4, 6, 9]))]))
-    models = drv.ask_many([('cli.parser', {'parser': p, 'args': a or []}) for p, a in cases])
-    for (p, a), m in zip(cases, models):
+            words = PARSER_WORDS if rng.random() < 0.6 else HOSTILE_WORDS
+            cases.append((p, [rng.choice(words) for _ in range(rng.choice([1, 2, 3, 4, 6, 9]))]))
+    # the json parser's own quota of hostile documents (it is one of seven parsers in the draw above)
+    for _ in range(max(200, n // 4)):
+        variant[len(cases)], a = gen_json_hostile(rng)
+        cases.append((jp, a))
+    # the model is asked wherever the wire format carries the strings (not lone surrogates) and, for json, where
+    # the driver's stand-in for json.loads is the same function of the text; the monitors run on every case
+    askable = [i for i, (p, a) in enumerate(cases)
+               if not has_surrogate(a) and (not p.endswith('json') or json_standin_ok(' '.join(a or [])))]
+    answers = drv.ask_many([('cli.parser', {'parser': cases[i][0], 'args': cases[i][1] or []}) for i in askable])
+    models = dict(zip(askable, answers))
+    for i, (p, a) in enumerate(cases):
+        m = models.get(i)
         case = {'kind': 'parser', 'parser': p, 'args': a}
         if isinstance(m, common.Reject):
             res.count('parser:outside-model')
-            continue
+            m = None
         real = impl.parser_obs(p, a)
         res.case(case, nontrivial=True)
         short = p.rsplit('.', 1)[1]
         res.count('parser:' + short)
         res.count('parser-n:' + ('empty' if not a else ('1' if len(a) == 1 else '2+')))
-        mv = {'err': {'name': m['err']['name']}} if 'err' in m else {'ok': m['ok']}
+        if any(ord(ch) < 32 for x in a or [] for ch in x):
+            res.count('parser-args:raw-control-character:' + short)
+        if any(ord(ch) > 126 for x in a or [] for ch in x):
+            res.count('parser-args:non-ascii:' + short)
+        if i in variant:
+            res.count('json-hostile:' + variant[i])
+        if m is None:
+            res.count('parser:monitor-only' + (':surrogate' if has_surrogate(a) else ':json-standin'))
         rv = real
         if short == 'json':
-            mv, rv = sort_keys(mv), sort_keys(real)
+            rv = sort_keys(real)
             res.count('json-result:' + ('err:' + rv['err']['name'] if 'err' in rv else 'ok'))
-        if mv != rv:
-            res.mismatch(case, mv, rv)
+        if m is not None:
+            mv = {'err': {'name': m['err']['name']}} if 'err' in m else {'ok': m['ok']}
+            if short == 'json':
+                mv = sort_keys(mv)
+            if mv != rv:
+                res.mismatch(case, mv, rv)
         # determinism: a second call gives the same
         again = impl.parser_obs(p, a)
         if again != real:
@@ -455,7 +569,7 @@ def check_parsers(env, res, n):
             txt = ' '.join(a or [])
             try:
                 loaded = json.loads(txt) if a else None
-                want = {'ok': common.enc(loaded)} if isinstance(loaded, dict) or loaded is None and not a else \
+                want = {'ok': impl.enc_total(loaded)} if isinstance(loaded, dict) or loaded is None and not a else \
                     {'err': {'name': 'TypeError'}}
             except ValueError:
                 want = {'err': {'name': 'json.decoder.JSONDecodeError'}}
@@ -484,14 +598,15 @@ def want_parser(p, a):
         loaded = json.loads(' '.join(a))
     except ValueError:
         return {'err': {'name': 'json.decoder.JSONDecodeError'}}
-    return {'ok': common.enc(loaded)} if isinstance(loaded, dict) else {'err': {'name': 'TypeError'}}
+    return {'ok': impl.enc_total(loaded)} if isinstance(loaded, dict) else {'err': {'name': 'TypeError'}}
 
 
 def gen_parser_seq(rng, parser=None):
     """call - mutate the returned containers in place - call again with the SAME argument list (and other lists,
     other parsers, in between)."""
     p = parser or rng.choice(PARSERS)
-    pool = [None, [], ['a=1', 'b=2'], ['a=1'], ['x', 'y'], ['k=v', 'bare'], ['{"a":', '{"b":', '[1]}}']]
+    pool = [None, [], ['a=1', 'b=2'], ['a=1'], ['x', 'y'], ['k=v', 'bare'], ['{"a":', '{"b":', '[1]}}'],
+            ['{"a": "l1\nl2"}'], ['k=\x01', 'l1\nl2', 'ü=😀'], ['{"a\t":', '{"b": "\\n"}}']]
     ops, ncalls = [], 0
     for _ in range(rng.randint(2, 5)):
         a = rng.choice(pool[:2] if rng.random() < 0.5 else pool)
@@ -1194,6 +1309,14 @@ def proc_cases(env, full):
         context_parser='pypyr.parser.json')
     add('error', 'json-parser-array', [ECHO], T('TypeError'), argv=['pipe', '[1,', '2]'], raised='discover',
         context_parser='pypyr.parser.json')
+    # a multi-line quoted shell argument: a RAW control character inside a json string is not json (RFC 8259 / the strict
+    # stdlib decoder): no step runs, 255, the decoder's message. Between tokens LF/TAB/CR are whitespace: exit 0.
+    for nm, arg in (('raw-LF-in-string', '{"msg": "line1\nline2"}'), ('raw-TAB-in-string', '{"msg": "a\tb"}'),
+                    ('raw-U+0001-in-key', '{"k\x01": 1}')):
+        add('error', 'json-parser-' + nm, [ECHO], T('JSONDecodeError'), argv=['pipe', arg], raised='discover',
+            context_parser='pypyr.parser.json')
+    add('ok', 'json-parser-LF-TAB-between-tokens', [ECHO], {'status': 0}, argv=['pipe', '{"a":\n1,\t"b":', '"x\\ny"}'],
+        context_parser='pypyr.parser.json')
     # --- argparse refuses: status 2 (not part of the property; mirrors the model's usage result)
     add('usage', 'no-name', [ECHO], {'status': 2}, argv=[])
     add('usage', 'ctx-after-option', [ECHO], {'status': 2}, argv=['pipe', '--success', 's', 'extra'])
@@ -1838,6 +1961,7 @@ def parsefail_cases(env, full):
     rng = env.rng
     C = []
     parsers = [('pypyr.parser.json', ['{"env":', '"prod"'], 'JSONDecodeError'), ('pypyr.parser.json', ['[1,', '2]'], 'TypeError'),
+               ('pypyr.parser.json', ['{"msg":', '"line1\nline2"}'], 'JSONDecodeError'),
                ('failparser', ['a', 'b=c'], 'MyParserError'), ('failparser', [], 'MyParserError')]
     combos = []
     for pi, (parser, args, ty) in enumerate(parsers):
@@ -2303,8 +2427,11 @@ def run(env, res):
                 'options among valid options + adversarial token soup over all of these (ambiguous abbreviations, unknown '
                 'options, -h chains, out-of-domain strings); single strings vs ArgumentParser._parse_optional (every prefix '
                 'of every option string, = forms, negative-number matcher, random dash strings); parsers: empty/None, '
-                'directed and random argument lists for each of the 7 parsers (json: generated documents cut at spaces, '
-                'non-objects, invalid text); _get_parse_input: full 3x4x3 table; API initial context: parser x parse_args '
+                'directed and random argument lists for each of the 7 parsers, every stream with raw control characters '
+                '(LF TAB CR ESC U+0001..), DEL/C1, non-ASCII of every plane, unicode spaces/BOM, quotes, backslashes, lone '
+                'surrogates (json: generated documents cut at spaces, non-objects, invalid text, and documents with one '
+                'raw character / escape inside a string, one character between tokens, NaN/Infinity/odd literals, '
+                'duplicate keys - judged by the stdlib strict decoder); _get_parse_input: full 3x4x3 table; API initial context: parser x parse_args '
                 'x args_in x dict_in; shortcuts: directed + generated config.shortcuts tables x API calls through '
                 'Pipeline.new_pipe_and_args (every key absent/null/empty/set, out-of-domain kinds counted); exit ladders '
                 'in-process: every kind x type x message x log level, SystemExit(code) for 21 codes and other '
